@@ -56,14 +56,14 @@ impl Expr {
 
 /// Resource checker kinds of the harness.
 #[derive(Serialize, Deserialize, Clone, Copy, Debug, PartialEq, Eq, Hash, PartialOrd, Ord)]
-pub enum RChk { Exact, Parity, Exists, Always }
+pub enum RChk { Exact, Parity, Exists, Always, Near, AtLeast }
 
 /// Output checker kinds: the five built-in checkers of pie and two instrumented ones of the harness.
 #[derive(Serialize, Deserialize, Clone, Copy, Debug, PartialEq, Eq, Hash, PartialOrd, Ord)]
-pub enum OChk { Equals, OkEquals, ErrEquals, ResultIs, Always, Parity, IEquals }
+pub enum OChk { Equals, OkEquals, ErrEquals, ResultIs, Always, Parity, IEquals, Near, AtLeast }
 
-pub const RCHKS: [RChk; 4] = [RChk::Exact, RChk::Parity, RChk::Exists, RChk::Always];
-pub const OCHKS: [OChk; 7] = [OChk::Equals, OChk::IEquals, OChk::Always, OChk::OkEquals, OChk::ErrEquals, OChk::ResultIs, OChk::Parity];
+pub const RCHKS: [RChk; 6] = [RChk::Exact, RChk::Parity, RChk::Exists, RChk::Always, RChk::Near, RChk::AtLeast];
+pub const OCHKS: [OChk; 9] = [OChk::Equals, OChk::IEquals, OChk::Always, OChk::OkEquals, OChk::ErrEquals, OChk::ResultIs, OChk::Parity, OChk::Near, OChk::AtLeast];
 
 /// What a task sees of a resource through checker `c` (P7: outputs depend only on what checkers observe).
 pub fn observe_r(c: RChk, v: Option<Val>) -> u8 {
@@ -75,6 +75,23 @@ pub fn observe_r(c: RChk, v: Option<Val>) -> u8 {
     (RChk::Exists, None) => 0,
     (RChk::Exists, Some(_)) => 1,
     (RChk::Always, _) => 0,
+    // Checkers whose consistency relation is not an equivalence (tolerance band, lower bound): the task may not let its
+    // behaviour depend on the value at all, or reuse would legitimately be stale.
+    (RChk::Near, _) | (RChk::AtLeast, _) => 0,
+  }
+}
+
+/// The stamp a resource checker stores for value `v` (for the equivalence kinds: what the task observes).
+pub fn stamp_r(c: RChk, v: Option<Val>) -> u8 {
+  match c { RChk::Near | RChk::AtLeast => match v { None => 0, Some(v) => 1 + v % 4 }, _ => observe_r(c, v) }
+}
+
+/// Consistency relation of a resource checker between the stored stamp and the stamp of the current value.
+pub fn rel_r(c: RChk, then: u8, now: u8) -> bool {
+  match c {
+    RChk::Near => (then == 0 && now == 0) || (then > 0 && now > 0 && then.abs_diff(now) <= 1),
+    RChk::AtLeast => now >= then,
+    _ => then == now,
   }
 }
 
@@ -90,7 +107,15 @@ pub fn observe_o(c: OChk, o: &Out) -> u8 {
     OChk::ResultIs => o.is_err() as u8,
     OChk::Always => 0,
     OChk::Parity => out_num(o) % 2,
+    OChk::Near | OChk::AtLeast => 0,
   }
+}
+
+/// The stamp an (instrumented) output checker stores.
+pub fn stamp_o(c: OChk, o: &Out) -> u8 { match c { OChk::Near | OChk::AtLeast => out_num(o), _ => observe_o(c, o) } }
+
+pub fn rel_o(c: OChk, then: u8, now: u8) -> bool {
+  match c { OChk::Near => then.abs_diff(now) <= 1, OChk::AtLeast => now >= then, _ => then == now }
 }
 
 #[derive(Serialize, Deserialize, Clone, Debug, PartialEq, Eq, Hash)]
